@@ -272,3 +272,105 @@ Theorem C07_source_constructed_mse_distance : forall (orc : oracle) (sigmoid : b
 Proof. exact C07Source_ConstructedMse.constructed_mse_distance_uses_its_flag. Qed.
 Print Assumptions C07_source_constructed_mse_distance.
 
+
+(* ---- calculate_distance_matrix.get_args and main() as a whole command (gap review G7.2) ----
+   get_args() was the one function on this property's path that was not re-translated.  Now: parser.parse_args() is the
+   primitive yielding the raw namespace (Cli.cd_ns: the plain results main() reads, --distance-metric, the KEY=VALUE dict
+   of --distance-metric-param or None); the statements after it - class lookup among DistanceMetric subclasses, the
+   required-argument annotations of what was found, the cast of the KEY=VALUE items, the two attribute stores - come from
+   the translation (Generated/SrcCliArgsDist.v), and main() is translated once more with get_args() = that translation
+   and args.metric_cls( **args.metric_params) = `construct` on the two attributes get_args() stored. *)
+From Batchie Require Generated.SrcCliArgs Generated.SrcCliArgsDist Proofs.C18SourceIntrospect Proofs.C07SourceArgs.
+Theorem C07_model_is_source_cli_args_get_args :
+  forall (Cls F O : Type) (I : Cli.introspect Cls) (P : Cli.pyprims F O) (raw : Cli.cd_ns Cls F O),
+  SrcCliArgsDist.src_cd_get_args Cls F O I P raw = Cli.cd_get_args I P raw.
+Proof. exact C07SourceArgs.src_cd_get_args_is_model. Qed.
+Print Assumptions C07_model_is_source_cli_args_get_args.
+
+Theorem C07_model_is_source_cli_args_calculate_distance_matrix :
+  forall (Cls F O : Type) (I : Cli.introspect Cls) (P : Cli.pyprims F O) (Scr Th Me Dm : Type)
+         (construct : Cls -> list (Cli.str * Cli.pval F O) -> result Me) (L : Cli.cd_lib Scr Th Me Dm) (raw : Cli.cd_ns Cls F O),
+  SrcCliArgsDist.src_cli_calculate_distance_matrix_cmd Cls F O I P Scr Th Me Dm construct L raw
+  = Cli.cli_calculate_distance_matrix_cmd I P construct L raw.
+Proof. exact C07SourceArgs.src_cli_calculate_distance_matrix_cmd_is_model. Qed.
+Print Assumptions C07_model_is_source_cli_args_calculate_distance_matrix.
+
+(* ... with the introspection record made of the TRANSLATED get_class / get_required_init_args_with_annotations (Props/C18.v) *)
+Theorem C07_model_is_source_cli_args_calculate_distance_matrix_world :
+  forall (Mod Obj F O : Type) (W : Cli.pyworld Mod Obj) (P : Cli.pyprims F O) (Scr Th Me Dm : Type)
+         (construct : Obj -> list (Cli.str * Cli.pval F O) -> result Me) (L : Cli.cd_lib Scr Th Me Dm) (raw : Cli.cd_ns Obj F O),
+  SrcCliArgsDist.src_cli_calculate_distance_matrix_cmd Obj F O (C18SourceIntrospect.introspect_src W) P Scr Th Me Dm construct L raw
+  = Cli.cli_calculate_distance_matrix_cmd (Cli.introspect_of W) P construct L raw.
+Proof. exact C07SourceArgs.src_cli_calculate_distance_matrix_cmd_world. Qed.
+Print Assumptions C07_model_is_source_cli_args_calculate_distance_matrix_world.
+
+(* the metric every entry is computed with IS the configured one: whenever the translated command writes its file, the class
+   named by --distance-metric was found, the --distance-metric-param items were cast by its required-argument annotations
+   (ps = [] exactly when the option is absent), `construct` on that class and EXACTLY those parameters gave the metric m, and
+   the file holds what the library computes with m.  A get_args() that drops or ignores the option does not satisfy this. *)
+Theorem C07_cli_metric_is_configured :
+  forall (Cls F O : Type) (I : Cli.introspect Cls) (P : Cli.pyprims F O) (Scr Th Me Dm : Type)
+         (construct : Cls -> list (Cli.str * Cli.pval F O) -> result Me) (L : Cli.cd_lib Scr Th Me Dm) (raw : Cli.cd_ns Cls F O) out,
+  SrcCliArgsDist.src_cli_calculate_distance_matrix_cmd Cls F O I P Scr Th Me Dm construct L raw = Ok out ->
+  exists c req ps m,
+    Cli.i_get_class I Cli.s_batchie (Cli.cd_distance_metric raw) Cli.BDistanceMetric = Ok (Some c)
+    /\ Cli.i_required I (Some c) = Ok req
+    /\ Cli.cast_params P (Cli.cd_distance_metric_param raw) req = Ok ps
+    /\ construct c ps = Ok m
+    /\ Cli.cli_calculate_distance_matrix (Cli.cd_with_mk L (Ok m)) (Cli.cd_plain raw) = Ok out.
+Proof. exact C07SourceArgs.cmd_metric_is_constructed_from_params. Qed.
+Print Assumptions C07_cli_metric_is_configured.
+
+(* OBSERVATION on the unchanged tree (outside the property's quantifier, recorded because the review asked): the parameter
+   types are looked up only among the __init__ arguments WITHOUT a default, so a KEY naming a defaulted argument is a
+   KeyError (Err 25) - and the only metric the package ships, MSEDistance(sigmoid: bool = True), has no other argument:
+   `--distance-metric-param sigmoid=false` cannot be given.  Stated of the translated source, for every world in which the
+   signature gives the key's parameter a default. *)
+Theorem C07_cli_defaulted_metric_param_is_key_error :
+  forall (Mod Obj F O : Type) (W : Cli.pyworld Mod Obj) (P : Cli.pyprims F O) (Scr Th Me Dm : Type)
+         (construct : Obj -> list (Cli.str * Cli.pval F O) -> result Me) (L : Cli.cd_lib Scr Th Me Dm) (raw : Cli.cd_ns Obj F O)
+         (o : Obj) sig k v rest,
+  Cli.get_class W Cli.s_batchie (Cli.cd_distance_metric raw) Cli.BDistanceMetric = Ok (Some o) ->
+  Cli.w_isclass W o = true -> Cli.w_signature W o = Ok sig ->
+  (forall sp, In (k, sp) sig -> Cli.sp_no_default sp = false) ->
+  Cli.cd_distance_metric_param raw = Some ((k, v) :: rest) ->
+  SrcCliArgsDist.src_cli_calculate_distance_matrix_cmd Obj F O (C18SourceIntrospect.introspect_src W) P Scr Th Me Dm construct L raw
+  = Err 25%Z.
+Proof. exact C07SourceArgs.cmd_defaulted_param_is_key_error_world. Qed.
+Print Assumptions C07_cli_defaulted_metric_param_is_key_error.
+
+(* ---- matrices built by hand through the public class (gap review G7.1) ----
+   "a matrix missing any pair refuses to be densified" beyond the matrices the pipeline builds: ANY matrix of size n whose
+   stored keys ps are distinct, strictly lower-triangular and in range - in whatever order add_value stored them, with
+   whatever values d - refuses while a pair is missing and densifies to the symmetric zero-diagonal matrix of its values
+   once none is; mk ps is what the add_value calls build. *)
+From Batchie Require Proofs.C07HandBuilt.
+Theorem C07_hand_built_incomplete_refused :
+  forall (V : Type) (vzero : V) (d : nat -> nat -> V) (n : nat) (ps : list (nat * nat)) i j,
+  NoDup ps -> Forall (fun p => (snd p < fst p < n)%nat) ps -> (j < i < n)%nat -> ~ In (i, j) ps ->
+  add_all V d (dm_empty V (Z.of_nat n)) ps = Ok (C07DistMat.mk V d n ps) /\
+  to_dense V vzero (C07DistMat.mk V d n ps) = Err 5%Z.
+Proof.
+  intros V vzero d n ps i j Hnd Hv Hij Hnin.
+  exact (conj (C07HandBuilt.hand_built_by_add_value V d n ps Hv)
+              (C07HandBuilt.hand_built_incomplete_refused V vzero d n ps i j Hnd Hv Hij Hnin)).
+Qed.
+Print Assumptions C07_hand_built_incomplete_refused.
+
+Theorem C07_hand_built_complete_densifies :
+  forall (V : Type) (vzero : V) (d : nat -> nat -> V) (n : nat) (ps : list (nat * nat)),
+  NoDup ps -> Forall (fun p => (snd p < fst p < n)%nat) ps -> (forall i j, (j < i < n)%nat -> In (i, j) ps) ->
+  to_dense V vzero (C07DistMat.mk V d n ps) = Ok (C07DistMat.dense_of V vzero d n).
+Proof. exact C07HandBuilt.hand_built_complete_densifies. Qed.
+Print Assumptions C07_hand_built_complete_densifies.
+
+(* ... and the side condition cannot be dropped: `to_dense m = Ok D -> every pair is stored` is FALSE of the class as
+   written.  add_value guards with i < j (a diagonal key passes), is_complete counts entries: three accepted calls on a
+   size-3 matrix densify with the pairs (2,0), (2,1) missing and a non-zero diagonal.  Outside the property's quantifier
+   (no family of chunk files contains a diagonal key); replayed on the implementation by the harness (extra check). *)
+Theorem C07_to_dense_accepts_ill_formed_refuted :
+  exists m D, C07HandBuilt.ill_formed_script = Ok m /\ to_dense Z 0%Z m = Ok D
+              /\ has_key Z (dm_entries m) 2 0 = false /\ has_key Z (dm_entries m) 2 1 = false
+              /\ D = [[0; 3; 0]; [3; 5; 0]; [0; 0; 7]]%Z.
+Proof. exact C07HandBuilt.to_dense_accepts_ill_formed. Qed.
+Print Assumptions C07_to_dense_accepts_ill_formed_refuted.
